@@ -259,6 +259,18 @@ def integral_contract(col, seed, cfg, tier, full_chunks):
         return True, None
     col.check(f"integrate-vectorised-exact:{var}", vec_exact, inputs=inp_i, sample=sample)
 
+    def vec_chunks():
+        # the chunk size is an argument of both routes: the vectorised result must not depend on it either
+        for c in chunk_sizes(tot, tier, full_chunks):
+            got = mg_i.integrate(f_i, integration_chunk_size=c)
+            if np.ndim(got) != 0 or float(got) != float(want_i()):
+                return False, f"chunk size {c} (total {tot}): vectorised integral = {got!r}, nested sum = {want_i()}"
+            got = mg_i.integrate(f_i, False, c)
+            if np.ndim(got) != 0 or float(got) != float(want_i()):
+                return False, f"chunk size {c} passed positionally: vectorised integral = {got!r}, nested sum = {want_i()}"
+        return True, None
+    col.check(f"integrate-vectorised-all-chunks-exact:{var}", vec_chunks, inputs=dict(inp_i, chunk_sizes=f"1..{tot + 1}"))
+
     def pw_default():
         got = mg_i.integrate(f_i, non_vectorized=True)
         if np.ndim(got) != 0 or float(got) != float(want_i()):
